@@ -211,6 +211,26 @@ func runCLI(ctx context.Context, w *out.W, tier, tmp, outDir, only string) {
 			cases = append(cases, c)
 		}
 	}
+	// round 5: the two scenario classes of the coordinator through the CLI
+	{
+		ob, orows := oddTypeBase()
+		od := ob.clone()
+		t := &od.Tables[0]
+		for i := range t.Cols {
+			if t.Cols[i].Name == "other" { // dropping a column rebuilds the table; the odd-typed columns are not touched
+				t.Cols = append(t.Cols[:i:i], t.Cols[i+1:]...)
+				break
+			}
+		}
+		cases = append(cases, &Case{ID: "w-odd-types-rebuild", Cur: ob.clone(), Inserts: orows, Des: od, Edits: []string{"drop-col@ty"}})
+		for _, c := range fkFamilyCases() {
+			switch c.ID {
+			case "f-notnull-default-fk-dropped-cascade", "f-add-check-child-dropped-setnull", "f-drop-column-fk-kept-cascade", "f-drop-column-fk-dropped-setnull", "f-add-check-child-rebuilt-fk-kept-setdefault":
+				c.ID = "w" + c.ID
+				cases = append(cases, c)
+			}
+		}
+	}
 	r := rng.FromEnv(0xC05C)
 	for i := 0; i < n; i++ {
 		sub := rng.New(r.U64())
